@@ -73,7 +73,7 @@ Print Assumptions C18_index_describes_rows_label.
 
 Theorem C18_index_describes_rows_parcels : forall a ix pos, par_wf a -> resolve (par_len a) ix = Ok pos ->
   exists b, par_getitem a ix = Ok b /\ par_wf b
-    /\ par_elements b = select (0, 0, 0) (par_elements a) pos /\ par_len b = zlen pos
+    /\ par_elements b = select (0, 0, []) (par_elements a) pos /\ par_len b = zlen pos
     /\ pa_vol b = pa_vol a /\ pa_nv b = pa_nv a.
 Proof. exact par_index. Qed.
 Print Assumptions C18_index_describes_rows_parcels.
@@ -168,6 +168,29 @@ Theorem C18_empty_brainmodel_has_no_maps : forall a, b_name a = [] ->
   bm_to_mapping a = Err EIndex /\ bm_iter_structures a = Err EIndex.
 Proof. exact bm_empty_no_maps. Qed.
 Print Assumptions C18_empty_brainmodel_has_no_maps.
+
+(* == of the five axis classes (BrainModelAxis and ParcelsAxis line for line, the per-parcel
+   vertex-dictionary loop included) is an equivalence on well-formed axes: reflexive,
+   symmetric (although the loops only walk the LEFT operand's keys: equal sizes and distinct
+   keys make that symmetric), transitive.  This is what makes the sharing of one
+   MatrixIndicesMap between equal axes in to_header sound (C18_header_roundtrip). *)
+Theorem C18_axis_eq_equivalence :
+  (forall a, axis_wf a -> axis_eqb a a = true)
+  /\ (forall a b, axis_wf a -> axis_wf b -> axis_eqb a b = true -> axis_eqb b a = true)
+  /\ (forall a b c, axis_eqb a b = true -> axis_eqb b c = true -> axis_eqb a c = true).
+Proof. exact (conj axis_eqb_refl (conj axis_eqb_sym axis_eqb_trans)). Qed.
+Print Assumptions C18_axis_eq_equivalence.
+
+(* what == of two parcels axes says about the vertex dictionaries: same number of surface
+   structures per parcel and the same vertex list for every structure *)
+Theorem C18_parcels_eq_vertices : forall x y, par_eqb x y = true ->
+  Forall2 (fun v1 v2 => length v1 = length v2 /\ forall k idx, In (k, idx) v1 -> vlookup v2 k = Some idx)
+          (pa_vertices x) (pa_vertices y).
+Proof.
+  intros x y H. apply par_eqb_iff in H as (_ & _ & _ & _ & _ & H).
+  induction H; constructor; [now apply vdict_eqb_spec|assumption].
+Qed.
+Print Assumptions C18_parcels_eq_vertices.
 
 (* ---------------------------------------------------------------- header and file *)
 (* Cifti2Header.from_axes(axes).get_axis(i) == axes[i] for every tuple of well-formed axes of
